@@ -107,3 +107,22 @@ theorem C13_state_variances_ge_floor (w : Fin C → ℝ) (thr : ℝ) (ops : List
     (hv : ((GState.init (D := D) w thr).run ops).variances = some v) (c : Fin C) (d : Fin D) :
     ((GState.init (D := D) w thr).run ops).thresholds c d ≤ v c d :=
   C17_variances_ge_floors w thr ops v hv c d
+
+/-- D26 (known finding, DESIGN §9.3), the real-number side: a sample's responsibilities sum to one, so
+normalising them per sample — the repair that was not made because it moves pinned reference values
+at rounding level — is the identity. That the code counts a sample beyond ~2^53 component spacings
+once per tied component is a floating-point effect (`log k` lost in the rounding of a log-likelihood
+of order 1e40) which no theorem over ℝ can show; the check shows it on the code. -/
+theorem C13_resp_normalisation_is_identity (p : Params (C+1) D ℝ) (x : Fin D → ℝ) (c : Fin (C+1)) :
+    resp p x c / ∑ c', resp p x c' = resp p x c := by
+  rw [resp_sum_one, div_one]
+
+/-- and the E-step's counts add up to the number of samples (what `Σ_c n_c = t` means for the weights
+of one ML iteration: they sum to one) -/
+theorem C13_counts_sum_to_samples (p : Params (C+1) D ℝ) (xs : List (Fin D → ℝ)) :
+    ∑ c, (xs.map fun x => resp p x c).sum = xs.length := by
+  induction xs with
+  | nil => simp
+  | cons x xs ih =>
+    simp only [List.map_cons, List.sum_cons, Finset.sum_add_distrib, ih, resp_sum_one, List.length_cons]
+    push_cast; ring
